@@ -620,6 +620,8 @@ def wl_sequence(ctx, rng):
             steps.append({'op': 'rebuild'})
         if rng.random() < 0.3:
             steps.append({'op': 'fault', 'site': faults.SITES[int(rng.integers(0, len(faults.SITES)))], 'k': int(rng.integers(1, 3))})
+    if not steps:
+        steps.append({'op': 'rebuild'})
     if not any(st['op'] == 'add' for st in steps) and 'Rayleigh' not in have:
         steps.insert(int(rng.integers(0, len(steps) + 1)), {'op': 'add', 'what': 'Rayleigh'})
     ctx.feature(steps=[st['op'] + ':' + str(st.get('what', st.get('name', ''))) for st in steps])
